@@ -307,7 +307,7 @@ impl Check for C03 {
             "a server refusing the k-th TCP connection stands for 'refuses that variant' (java, 1.6, 1.4, b1.8 in the documented order)".into(),
         ]
     }
-    fn total_cases(&self, tier: Tier) -> u64 { tier.pick(60_000, 1_500_000) }
+    fn total_cases(&self, tier: Tier) -> u64 { tier.pick(300_000, 1_500_000) }
     fn run_case(&mut self, cx: &mut Cx) {
         match cx.idx % 4 {
             0 | 1 => self.decode_case(cx),
